@@ -8,7 +8,7 @@ from autobean_refactor import models
 
 CASES = {'quick': 2400, 'thorough': 48000}
 GATES = {
-    'quick': {'refused_raw_text_assignments': 100, 'evaluations': 20000, 'value_roundtrips': 12000, 'lexemes_accepted': 3000, 'assignment_steps': 4000,
+    'quick': {'refused_raw_text_assignments': 100, 'ragged_then_reindented': 30, 'evaluations': 20000, 'value_roundtrips': 12000, 'lexemes_accepted': 3000, 'assignment_steps': 4000,
               'classes_value_roundtrip': 14, 'terminals_with_lexemes': 40, 'hostile_comment_values': 300},
     'thorough': {'evaluations': 700000, 'classes_value_roundtrip': 14, 'terminals_with_lexemes': 40},
 }
@@ -233,10 +233,22 @@ def run_case(col, r, idx):
     except Exception:
         return
     log = [('from_value', repr(v0))]
+    forced = []
+    if cls is models.BlockComment and r.random() < 0.3:
+        # an indented comment of several lines, respelled with another indentation on every line, then re-indented
+        try:
+            t = cls.from_value('first\nsecond ' + v0.replace('\r', ''), indent=r.choice(['  ', '\t', '    ']))
+            log = [('from_value', repr(t.value), t.indent)]
+            forced = ['ragged', 'indent']
+        except Exception:
+            forced = []
     for _ in range(r.randint(2, 6)):
         kind = r.choice(['value', 'raw_text', 'indent']) if cls is models.BlockComment else r.choice(['value', 'raw_text'])
         v = values.value_for(r, cls)
-        if r.random() < 0.12:
+        force = forced.pop(0) if forced else None
+        if force == 'indent':
+            kind = 'indent'
+        if force is None and r.random() < 0.12:
             # a raw text the type cannot mean (often a well-formed lexeme: 2021-02-30). If the assignment is refused the token must
             # be exactly what it was - text, value, indent - so that the two still describe each other; if the type takes it, the
             # sequence has left the domain and ends without a verdict.
@@ -258,12 +270,15 @@ def run_case(col, r, idx):
                 continue
             col.count('out_of_domain_raw_text_accepted')
             return
+        if force == 'ragged':
+            kind = 'raw_text'
+            col.count('ragged_then_reindented')
         try:
             if kind == 'value':
                 t.value = v
                 log.append(('value', repr(v)))
             elif kind == 'raw_text':
-                raw = values.respell(r, t) if r.random() < 0.4 else None      # the current value spelled differently
+                raw = values.respell(r, t, 'ragged' if force == 'ragged' else None) if (force == 'ragged' or r.random() < 0.4) else None      # the current value spelled differently
                 if raw is None:
                     raw = (cls.from_value(v, indent=r.choice(['', ' ', '\t'])) if cls is models.BlockComment else cls.from_value(v)).raw_text
                 else:
